@@ -181,6 +181,23 @@ def check_history(ctx, seed, length, misuse, version):
                 ctx.fail(f"unlinked-but-listed/{op[0]}", f"step {i} {req}: unlinked #{h:X} is listed in {seen['%X' % h]}", rep)
             if e.is_alive and e.dxf.owner is not None and ("%X" % h) not in seen:
                 ctx.fail(f"linked-but-missing/{op[0]}", f"step {i} {req}: #{h:X} has owner {e.dxf.owner} but is in no layout", rep)
+        # query results: the paperspace flag must tell paperspace content from modelspace/block content
+        for br in doc.block_records:
+            lay = br.block_layout
+            want = 1 if lay.is_any_paperspace else 0
+            bad = [e.dxf.handle for e in lay if e.dxf.get("paperspace", 0) != want]
+            if bad:
+                ctx.fail(f"paperspace-flag/{op[0]}", f"step {i} {req}: entities {bad[:3]} in {br.dxf.name} have paperspace != {want}", rep)
+            q = [e.dxf.handle for e in lay.query("*[paperspace==%d]" % want)]
+            if q != [e.dxf.handle for e in lay]:
+                ctx.fail(f"paperspace-query/{op[0]}", f"step {i} {req}: layout.query('*[paperspace=={want}]') misses content of {br.dxf.name}", rep)
+        # a safely deleted block has no live reference left
+        if op[0] == "delblock" and op[2]:
+            gone = op[1].lower()
+            refs = [e.dxf.handle for br in doc.block_records for e in br.block_layout
+                    if e.dxftype() == "INSERT" and e.dxf.name.lower() == gone]
+            if refs and gone not in {b.name.lower() for b in doc.blocks}:
+                ctx.fail(f"deleted-referenced-block/{op[0]}", f"step {i} {req}: block deleted (safe=True) although INSERT {refs[:3]} references it", rep)
         names = {b.name.lower() for b in doc.blocks}
         for n in ["B1", "b1", "B2", "Blk3", "nope"]:
             if (n in doc.blocks) != (n.lower() in names):
